@@ -7,17 +7,18 @@ M=$(readlink -f "$1")
 W=/tmp/mutconfirm
 if [ ! -d $W ]; then git -C /repo worktree add -q --detach $W HEAD || exit 2; fi
 cd $W && git checkout -q --detach $(git -C /repo rev-parse HEAD) && git checkout -q -- . && git clean -fdq -e target
-rm -rf $W/_out; mkdir -p $W/_out/m; cp -r $M/. $W/_out/m/
+N=$(basename $M)
+rm -rf $W/_out; mkdir -p $W/_out/$N; cp -r $M/. $W/_out/$N/
 # agents' demo scripts refer to their own worktree path; rewrite to this one
-AGENTW=$(grep -rhoE "/tmp/mut/C[0-9]+" $W/_out/m/demo.sh $W/_out/m/meta.json 2>/dev/null | head -1)
-if [ -n "$AGENTW" ]; then grep -rl "$AGENTW" $W/_out/m | xargs sed -i "s#$AGENTW/_out/m[0-9]*#$W/_out/m#g; s#$AGENTW#$W#g"; fi
+AGENTW=$(grep -rhoE "/tmp/mut/C[0-9]+" $W/_out/$N/demo.sh $W/_out/$N/meta.json 2>/dev/null | head -1)
+if [ -n "$AGENTW" ]; then grep -rl "$AGENTW" $W/_out/$N | xargs sed -i "s#$AGENTW#$W#g"; fi
 git apply $M/patch.diff || { echo "VERDICT $M: patch does not apply"; exit 1; }
 cargo build --offline -q 2>/dev/null || { echo "VERDICT $M: does not build"; git checkout -q -- .; exit 1; }
-( cd $W && timeout 300 bash _out/m/demo.sh >/tmp/mutconfirm_demo1.log 2>&1 ); D1=$?
+( cd $W && timeout 300 bash _out/$N/demo.sh >/tmp/mutconfirm_demo1.log 2>&1 ); D1=$?
 cargo test --workspace --no-fail-fast --offline > /tmp/mutconfirm_test.log 2>&1; T=$?
 NPASS=$(grep -E "^test result: ok" /tmp/mutconfirm_test.log | sed -E 's/.* ([0-9]+) passed.*/\1/' | paste -sd+ | bc)
 git checkout -q -- .
 cargo build --offline -q 2>/dev/null
-( cd $W && timeout 300 bash _out/m/demo.sh >/tmp/mutconfirm_demo0.log 2>&1 ); D0=$?
+( cd $W && timeout 300 bash _out/$N/demo.sh >/tmp/mutconfirm_demo0.log 2>&1 ); D0=$?
 echo "VERDICT $M: demo_with_patch_exit=$D1 tests_exit=$T tests_passed=$NPASS demo_without_patch_exit=$D0"
 if [ $D1 -ne 0 ] && [ $T -eq 0 ] && [ $D0 -eq 0 ]; then echo "CONFIRMED $M"; else echo "NOT-CONFIRMED $M"; fi
